@@ -237,6 +237,62 @@ Theorem C12_raising_task_unpicklable : forall mf env n job i t x live text ptb p
 Proof. exact (raising_task_unpicklable mee_repaired). Qed.
 Print Assumptions C12_raising_task_unpicklable.
 
+(* ---------------- building the record is total ---------------- *)
+
+(* The translator emits HOW each attribute of the stand-ins _Frame / _Code / Traceback is read from
+   the live object (literal, obj.attr, obj.ns.get(k[, d]), obj.ns[k], try/except KeyError ...).
+   Executed on a live node whose frame namespaces f_globals / f_locals are ARBITRARY dicts (code run
+   by exec(src, {}) / eval has no __name__, no __file__, no __loader__), the constructors as
+   translated on this run never raise and build the model's stand-in: the (co_filename, co_name,
+   tb_lineno) triple verbatim, f_globals = {__file__: live value or "__main__", __name__: live value
+   or None, __loader__: None}, f_locals = {__traceback_hide__: ..} iff the live frame has it.
+   (`frame.f_globals["__name__"]` instead of `.get("__name__")` makes this statement false.) *)
+Theorem C12_code_frame_copy_total : forall l,
+    gen_copy_lframe l = Some (copy_lframe l) /\
+    sf_fr (copy_lframe l) = lf_fr l /\
+    map fst (sf_globals (copy_lframe l)) = [k_file; k_name; k_loader] /\
+    ns_get (sf_globals (copy_lframe l)) k_file =
+      Some (match ns_get (lf_globals l) k_file with Some v => v | None => GStr s_main end) /\
+    ns_get (sf_globals (copy_lframe l)) k_name =
+      Some (match ns_get (lf_globals l) k_name with Some v => v | None => GNone end) /\
+    ns_get (sf_globals (copy_lframe l)) k_loader = Some GNone.
+Proof. intros l. split; [exact (gen_copy_lframe_eq l)|exact (copy_lframe_keeps l)]. Qed.
+Print Assumptions C12_code_frame_copy_total.
+
+(* ExceptionInfo's Traceback(tb), executed with the translated reads, guard, limit and marker, on
+   ANY non-empty live traceback (frames of exec'd / eval'd / lambda / generator / class-body code
+   are frames like any other: what differs is which keys their namespaces have): it returns a chain
+   c -- nothing raises --, whose (file, name, line) part is the chain of the depth theorems above,
+   and which node by node is the stand-in of the live node, then the marker iff the live chain is
+   longer than limit + 2. *)
+Theorem C12_record_construction_total : forall rl tb,
+    tb <> [] ->
+    exists c, gen_copy_ltb_default rl tb = Some c /\
+              copy_ltb (EInfo.default_max_frames rl) tb = Some c /\
+              copy_tb (EInfo.default_max_frames rl) (map lf_fr tb) = Some (map sf_fr c) /\
+              (0 <= rl ->
+               c = map copy_lframe (firstn (Z.to_nat (rl / 8 + 2)) tb) ++
+                   (if Z.of_nat (length tb) >? rl / 8 + 2 then [marker_s] else [])).
+Proof. exact record_construction_total. Qed.
+Print Assumptions C12_record_construction_total.
+
+(* ... and inside the worker: a task raising a picklable exception through frames with arbitrary
+   namespaces.  The record IS built (no exception escapes the handler, the worker is not killed),
+   the worker's output is ACK + one READY(ok=False) carrying it, and every k >= 1 round trips keep
+   type, class, args, attributes, text and chain. *)
+Theorem C12_raising_task_record_total : forall rl env n job i t x ltb text ptb ptext,
+    ltb <> [] -> env n = PutOk -> env (S n) = PutOk -> picklable_exc mee_repaired x ->
+    exists c,
+      gen_copy_ltb_default rl ltb = Some c /\
+      handle_task (EInfo.default_max_frames rl) env n job i (Raises t x (map lf_fr ltb) text) ptb ptext =
+      ([MAck job i; MReady job i false (PInfo (mk_ei t (EWT x text) (map sf_fr c) text false))],
+       inr (S (S n))) /\
+      forall k, (1 <= k)%nat ->
+        exists e', iter_rt mee_repaired k (mk_ei t (EWT x text) (map sf_fr c) text false) = Some e' /\
+                   essence e' = (t, x_cls x, x_args x, x_attrs x, text, map sf_fr c).
+Proof. exact (raising_task_record_total mee_repaired). Qed.
+Print Assumptions C12_raising_task_record_total.
+
 (* ---------------- the worker's encoding-error path ---------------- *)
 
 Theorem C12_encoding_error : forall mf env n job i o ptb ptext ok p r,
@@ -367,3 +423,20 @@ Proof.
   - rewrite (proj1 (construct_mee_wf _ _ _ Hw)). split; [reflexivity|].
     exact (construct_mee_wf _ _ _ Hw).
 Qed.
+
+(* a task whose exception passes through code run by exec(src, {}) (globals = {__builtins__} only)
+   and through a frame that hides itself: the hypotheses of C12_raising_task_record_total hold, and
+   by computation the stand-in of the exec'd frame has __file__ = "__main__", __name__ = None *)
+Example C12_record_total_witness :
+  let outer := mk_lf (mk_fr (s2l "t.py") (s2l "task") 10)
+                     [(k_name, GStr (s2l "tasks")); (k_file, GStr (s2l "t.py"))]
+                     [(k_hide, GOther (s2l "True"))] in
+  let execd := mk_lf (mk_fr (s2l "<generated>") (s2l "boom") 2)
+                     [(s2l "__builtins__", GOther (s2l "{..}"))] [] in
+  let ltb := [outer; execd] in
+  ltb <> [] /\
+  gen_copy_ltb_default 1000 ltb =
+  Some [mk_sf (lf_fr outer) [(k_file, GStr (s2l "t.py")); (k_name, GStr (s2l "tasks")); (k_loader, GNone)]
+              [(k_hide, GOther (s2l "True"))];
+        mk_sf (lf_fr execd) [(k_file, GStr s_main); (k_name, GNone); (k_loader, GNone)] []].
+Proof. cbv zeta. split; [discriminate|vm_compute; reflexivity]. Qed.
